@@ -327,7 +327,7 @@ func ruleInvalidNeverRuns(c *chk.Ctx, d *dispatchModel) {
 func ruleIDHandling(c *chk.Ctx) {
 	// isNull: len == 4 and the four bytes n,u,l,l
 	for _, pkg := range []*ssa.Package{c.M.Pkg, c.M.ChanPkg} {
-		f := pkg.Func("isNull")
+		f := c.M.Func(pkg, "isNull")
 		if f == nil {
 			// by role: an unexported predicate over a byte slice that mentions the token null
 			for _, g := range pkgFuncs(c, pkg) {
@@ -1155,7 +1155,7 @@ func ruleMarshalErrorsChecked(c *chk.Ctx) {
 
 // ruleParseRequests: C13-D5.
 func ruleParseRequests(c *chk.Ctx) {
-	pr := c.M.Pkg.Func("ParseRequests")
+	pr := c.M.Func(c.M.Pkg, "ParseRequests")
 	if pr == nil {
 		c.Undecided("TABLE.parsereq", nil, "ParseRequests", 0, "not found")
 		return
@@ -1231,8 +1231,8 @@ func ruleParseRequests(c *chk.Ctx) {
 					if !ok {
 						continue
 					}
-					if ir.FieldVar(fa).Name() == "Error" && chk.LoadsField(s2.Val, c.M.JErr) {
-						src := s2.Val.(*ssa.UnOp).X.(*ssa.FieldAddr).X
+					if ld, isLd := s2.Val.(*ssa.UnOp); ir.FieldVar(fa).Name() == "Error" && isLd && chk.LoadsField(s2.Val, c.M.JErr) {
+						src := ld.X.(*ssa.FieldAddr).X
 						if viaCall != nil {
 							prm, isP := src.(*ssa.Parameter)
 							if !isP {
@@ -1259,7 +1259,7 @@ func ruleParseRequests(c *chk.Ctx) {
 	c.Check(okErr && okIdx, "TABLE.parsereq", pr, "entry i built from member i", pr.Pos(), "out[i].Error ← member[i]'s deferred validation error (same index)", "the parsed entries are not built index-for-index from the members with their deferred errors")
 	// ToRequest returns nil when Error != nil
 	for _, f := range pkgFuncs(c, c.M.Pkg) {
-		if f.Name() != "ToRequest" || f.Parent() != nil {
+		if ir.BaseName(f) != "ToRequest" || f.Parent() != nil {
 			continue
 		}
 		okNil := false
@@ -1409,7 +1409,7 @@ func ruleNoReceiverWrites(c *chk.Ctx, f *ssa.Function, rule, what string) {
 func ruleErrCodeAccessors(c *chk.Ctx) {
 	n := 0
 	for _, f := range pkgFuncs(c, c.M.Pkg) {
-		if f.Parent() != nil || f.Name() != "ErrCode" || f.Synthetic != "" {
+		if f.Parent() != nil || ir.BaseName(f) != "ErrCode" || f.Synthetic != "" {
 			continue
 		}
 		n++
@@ -1441,7 +1441,7 @@ func ruleErrCodeAccessors(c *chk.Ctx) {
 	// Code.Err: nil exactly for NoError, the wrapper otherwise
 	noErr, _ := pkgConstInt(c.M.Pkg, "NoError")
 	for _, f := range pkgFuncs(c, c.M.Pkg) {
-		if f.Parent() != nil || f.Name() != "Err" || f.Signature.Recv() == nil || !strings.HasSuffix(f.Signature.Recv().Type().String(), ".Code") {
+		if f.Parent() != nil || ir.BaseName(f) != "Err" || f.Signature.Recv() == nil || !strings.HasSuffix(f.Signature.Recv().Type().String(), ".Code") {
 			continue
 		}
 		okNil, okWrap := false, false
@@ -1502,7 +1502,7 @@ func ruleErrCodeAccessors(c *chk.Ctx) {
 
 // ruleErrorCodeOrder: C14-D3: the decision list of ErrorCode.
 func ruleErrorCodeOrder(c *chk.Ctx) {
-	f := c.M.Pkg.Func("ErrorCode")
+	f := c.M.Func(c.M.Pkg, "ErrorCode")
 	if f == nil {
 		c.Undecided("TABLE.classify", nil, "ErrorCode", 0, "not found")
 		return
@@ -1766,7 +1766,7 @@ func ruleServerErrorMapping(c *chk.Ctx, d *dispatchModel) {
 						}
 						ex(s2.Val, append(append([]ir.Cond{}, a.conds...), ir.CondsAt(s2.Block())...), 0)
 						for _, cv := range codes {
-							if call, ok := cv.val.(*ssa.Call); ok && call.Call.StaticCallee() != nil && call.Call.StaticCallee().Name() == "ErrorCode" {
+							if call, ok := cv.val.(*ssa.Call); ok && call.Call.StaticCallee() != nil && ir.BaseName(call.Call.StaticCallee()) == "ErrorCode" {
 								if _, fv, ok := taskFieldLoad(c, call.Call.Args[0]); ok && fv == c.M.TErr {
 									codeSrc++
 									detail = append(detail, "Code=ErrorCode(task.err)")
